@@ -37,6 +37,8 @@ type vfSuite struct {
 	Get          bool        `json:"reliesOnConnectGet"`
 	Limit        bool        `json:"reliesOnMessageReceiveLimit"`
 	Cases        []vfSuiteTC `json:"cases"`
+	// EmptyLists: the axes the suite leaves open are empty lists rather than absent ones (the same message)
+	EmptyLists bool `json:"emptyLists,omitempty"`
 }
 
 func vfSuiteProto(s vfSuite) *conformancev1.TestSuite {
@@ -45,6 +47,20 @@ func vfSuiteProto(s vfSuite) *conformancev1.TestSuite {
 		RelevantProtocols: vfEnums[conformancev1.Protocol](s.Protocols), RelevantHttpVersions: vfEnums[conformancev1.HTTPVersion](s.Versions),
 		RelevantCodecs: vfEnums[conformancev1.Codec](s.Codecs), RelevantCompressions: vfEnums[conformancev1.Compression](s.Compressions),
 		ReliesOnTls: s.TLS, ReliesOnTlsClientCerts: s.Certs, ReliesOnConnectGet: s.Get, ReliesOnMessageReceiveLimit: s.Limit,
+	}
+	if s.EmptyLists {
+		if len(out.RelevantProtocols) == 0 {
+			out.RelevantProtocols = []conformancev1.Protocol{}
+		}
+		if len(out.RelevantHttpVersions) == 0 {
+			out.RelevantHttpVersions = []conformancev1.HTTPVersion{}
+		}
+		if len(out.RelevantCodecs) == 0 {
+			out.RelevantCodecs = []conformancev1.Codec{}
+		}
+		if len(out.RelevantCompressions) == 0 {
+			out.RelevantCompressions = []conformancev1.Compression{}
+		}
 	}
 	for _, tc := range s.Cases {
 		req := &conformancev1.ClientCompatRequest{TestName: tc.Name, StreamType: conformancev1.StreamType(tc.Stream)}
@@ -139,6 +155,7 @@ func vfGenSuites(t *rapid.T, mode int32) []vfSuite {
 			s.Protocols = []int32{1}
 		}
 		s.Limit = rapid.IntRange(0, 4).Draw(t, "limit") == 0
+		s.EmptyLists = rapid.IntRange(0, 5).Draw(t, "emptyLists") == 0
 		tnames := rapid.Permutation(vfTestNames).Draw(t, "testNames")
 		for j, k := 0, rapid.IntRange(1, 5).Draw(t, "ncases"); j < k; j++ {
 			tc := vfSuiteTC{Name: tnames[j], Stream: int32(rapid.IntRange(1, 5).Draw(t, "stream"))}
